@@ -72,6 +72,7 @@ UnaryNot(l0, r0) ==
 \* a Python object that is neither an atom, an operator nor None (the bool that `==` between
 \* two non-atoms produces)
 PY == [k |-> "p", s |-> "", tr |-> <<>>, a |-> <<>>]
+PYQ == [k |-> "p", s |-> "?", tr |-> <<>>, a |-> <<>>]
 
 \* every operate_binary : left OP right.  Both must be atoms or Python raises - except where
 \* Python itself is lenient (named deviations, see known findings of C01):
@@ -85,6 +86,10 @@ Binary(sym, l0, r0) ==
      THEN St(Append(gl.l, T(<<sym>> \o gl.v.tr \o gr.v.tr)), gr.r)
      ELSE IF sym \in {"==", "!="} /\ ~IsTree(gl.v) /\ ~IsTree(gr.v)
      THEN St(Append(gl.l, PY), gr.r)
+     \* two bare Python booleans: Python computes with them (True ** True = 1, True < False ...);
+     \* the result is again a bare Python object, or ZeroDivisionError: PYQ = "python object or raises"
+     ELSE IF gl.v.k = "p" /\ gr.v.k = "p" /\ sym \in {"**", "*", "/", "+", "-", "<=", ">=", "<", ">"}
+     THEN St(Append(gl.l, PYQ), gr.r)
      ELSE IF Lenient /\ sym \in {"&&", "||"} /\ IsTree(gl.v)
      THEN St(Append(gl.l, T(<<sym \o "?">> \o gl.v.tr)), gr.r)
      ELSE ErrSt(gl.l, gr.r)
@@ -92,6 +97,8 @@ Binary(sym, l0, r0) ==
 \* operate_args : par passes its argument through whatever it is, functions need atoms
 Args(tok, l0, r0) ==
   IF tok.s = "(" THEN St(Append(l0, tok.a[1]), r0)
+  ELSE IF tok.s \in {"f2(", "pow("} /\ \A i \in 1..Len(tok.a) : tok.a[i].k = "p"
+       THEN St(Append(l0, PYQ), r0)                 \* pow(True, True) = 1 ; logb would raise: "object or raises"
   ELSE IF \A i \in 1..Len(tok.a) : IsTree(tok.a[i])
        THEN St(Append(l0, T(CASE tok.s = "f1("   -> <<"f1">> \o tok.a[1].tr
                               [] tok.s = "f2("   -> <<"f2">> \o tok.a[1].tr \o tok.a[2].tr
@@ -198,10 +205,10 @@ MERR == <<"#err">>
 Outcome(res) == IF res.err THEN MERR
                 ELSE IF IsTree(res.v) THEN res.v.tr
                 ELSE IF res.v.k = "n" THEN <<"#none">>
-                ELSE IF res.v.k = "p" THEN <<"#py">>
+                ELSE IF res.v.k = "p" THEN (IF res.v.s = "?" THEN <<"#py?">> ELSE <<"#py">>)
                 ELSE <<"#item">>
 
 \* which named deviations (see Binary) shaped an outcome
-DevTags(o) == (IF o = <<"#py">> THEN {"eq_nonatom_sides"} ELSE {})
+DevTags(o) == (IF o \in {<<"#py">>, <<"#py?">>} THEN {"eq_nonatom_sides"} ELSE {})
               \cup (IF \E i \in 1..Len(o) : o[i] \in {"&&?", "||?"} THEN {"logic_rhs_missing"} ELSE {})
 =============================================================================
